@@ -229,13 +229,13 @@ def check(pid, tier, seed):
             nmodel = len(scripts)
             # all short sequences over the whole alphabet
             for kind in ('single', 'vector', 'vecrepl', 'file'):
-                for n in (1, 2, 3) if quick else (1, 2, 3, 4):
+                for n in (1, 2, 3) if quick else (1, 2, 3, 4, 5):
                     for seq in itertools.product(outcomes_of(kind), repeat=n):
                         if any(o in ('good', 'rpcerr', 'itemerr') for o in seq[:-1]):
                             continue
                         scripts.append(('short', kind, list(seq), rng.choice([1, 2, 3])))
             # random long fault sequences (mixing faults), also other init/max settings
-            for _ in range(300 if quick else 5000):
+            for _ in range(300 if quick else 30000):
                 kind = rng.choice(['single', 'vector', 'vecrepl', 'file'])
                 faults = [o for o in outcomes_of(kind) if o not in ('good', 'rpcerr', 'itemerr')]
                 n = rng.randint(0, 22)
